@@ -63,6 +63,9 @@ package region
 // a block whose chunks decode to more (or less) than its header declares is rejected: at the end of every block the
 // decoded chunk lengths add up exactly to the declared block length (C15)
 //@   at loopend 1 assert[C15] uncompressedSoFar == uncompressedBlockLen
+// success means the whole input has been decoded: nothing that follows a block is silently dropped (a corrupt stream
+// yields an error, never a prefix of the data)
+//@   at return 6 assert[C15] len(b) == 0
 
 // ---- hbase:meta row parsing (C11) ----
 
@@ -193,6 +196,10 @@ package region
 //@   ensures[C04] retryLaterClass(class) ==> typeis(r0, "region.RetryableError")
 //@   ensures[C04] relocateClass(class) ==> typeis(r0, "region.NotServingRegionError")
 //@   ensures[C04] serverDeadClass(class) ==> typeis(r0, "region.ServerError")
+// an IOException is the "region is gone from here" class exactly when its stack trace mentions the closed write-ahead log -
+// anywhere in the trace (a real trace begins with the class name, not with the message)
+//@   ensures[C04] class == "java.io.IOException" && strings.Contains(stack, "Cannot append; log is closed") ==> typeis(r0, "region.NotServingRegionError")
+//@   ensures[C04] class == "java.io.IOException" && !strings.Contains(stack, "Cannot append; log is closed") ==> !typeis(r0, "region.RetryableError") && !typeis(r0, "region.NotServingRegionError") && !typeis(r0, "region.ServerError")
 // anything else (application exceptions, unknown table, ...) comes back as a plain error, none of the retry classes
 //@   ensures[C04] !retryLaterClass(class) && !relocateClass(class) && !serverDeadClass(class) && class != "java.io.IOException" ==> !typeis(r0, "region.RetryableError") && !typeis(r0, "region.NotServingRegionError") && !typeis(r0, "region.ServerError")
 
@@ -343,13 +350,19 @@ package region
 //@   ensures[C05] (r1 == nil) == (r0 != nil)
 
 //@ func region.canSerializeCellBlocks.CellBlocksEnabled() (r)
-//@   modifies nothing
+//@   pure
 // (assumed of the implementations: the returned size is the number of payload bytes of the returned cellblocks)
+// Serialising a call is not free of effects for every implementation: a multi records, while it is serialised, the order
+// in which its regions went into the request (m.regions), and the response is dispatched by that record. Ghost nser[call]
+// counts the serialisations of a call; a request is serialised exactly once per send (C02) - a second pass over a multi
+// (map order!) would leave a record that is not the order on the wire.
 //@ func region.canSerializeCellBlocks.SerializeCellBlocks(cbs) (msg, out, n)
-//@   modifies nothing
+//@   modifies X.nser
 //@   ensures msg != nil && n == total(out)
+//@   ensures ghostat("nser", recv) == old(ghostat("nser", recv)) + 1 && forall(k, k != recv ==> ghostat("nser", k) == old(ghostat("nser", k)))
 //@ func hrpc.Call.ToProto() (msg)
-//@   modifies nothing
+//@   modifies X.nser
+//@   ensures ghostat("nser", recv) == old(ghostat("nser", recv)) + 1 && forall(k, k != recv ==> ghostat("nser", k) == old(ghostat("nser", k)))
 //@ func region.newBuffer
 //@   requires size >= 0
 //@   modifies nothing
@@ -391,6 +404,11 @@ package region
 // concurrent senders cannot interleave inside a frame whatever kind of net.Conn it is (C05)
 // the cellblock length announced in the header is the number of cellblock bytes that follow the frame, with or without compression
 //@   at call marshalProto#1 assert[C05] cellblocksLen == total(cellblocks) % 4294967296
+// a call that opts out of cellblocks is sent as the plain protobuf it builds itself (a CheckAndPut carries its condition
+// only there: serialised through the embedded mutation it would go out as an unconditional put)
+//@   at call SerializeCellBlocks#1 assert[C05] s.CellBlocksEnabled()
+//@   hides X.nser "per-operation ghost: serialisations of the request being sent"
+//@   ensures[C02,C05] ghostat("nser", rpc) == old(ghostat("nser", rpc)) + 1
 //@   at call WriteTo#1 assert[C05] ghost("nheld") > 0
 //@   at call write#1 assert[C05] ghost("nheld") > 0
 // the call is registered before anything is written, and stays registered on every return path (C03)
@@ -509,6 +527,19 @@ package region
 //@   modifies nothing
 //@   ensures[C15] r0 == 218421
 
+// what a new connection object is (C03, C18, C20): nothing sent, not failed, configured as asked; and the queue that
+// feeds the batching goroutine is unbuffered - a caller waits in QueueRPC / QueueBatch, where the failure of the
+// connection is watched, never in a buffer that nobody drains when the connection fails
+//@ func region.NewClient
+//@   modifies nothing
+//@   ensures typeis(r0, "*region.client") && cast(r0, "*region.client").sent != nil && len(cast(r0, "*region.client").sent) == 0
+//@   ensures[C03] cast(r0, "*region.client").rpcs != nil && ghostat("chancap", cast(r0, "*region.client").rpcs) == 0
+//@   ensures[C03] cast(r0, "*region.client").done != nil && ghostat("closed", cast(r0, "*region.client").done) == 0
+//@   ensures[C18] cast(r0, "*region.client").readTimeout == readTimeout
+//@   ensures[C20] cast(r0, "*region.client").addr == addr && cast(r0, "*region.client").ctype == ctype
+//@   ensures[C05] cast(r0, "*region.client").rpcQueueSize == queueSize && cast(r0, "*region.client").flushInterval == flushInterval && cast(r0, "*region.client").effectiveUser == effectiveUser
+//@   ensures[C05,C15] (codec != nil) == (cast(r0, "*region.client").compressor != nil) && (codec != nil ==> cast(r0, "*region.client").compressor.Codec == codec)
+
 // ---- a connection object dials at most once (C20) ----
 //@ func region.(*client).Dial$dialer(ctx, network, addr) (conn, err)
 //@   modifies X.dials
@@ -532,6 +563,12 @@ package region
 //@ func region.(*client).Dial
 //@   requires c.sent != nil && sentWF(c) && failWF(c)
 //@   ensures[C20] ghostat("oncedone", ref(c.dialOnce)) == 1
+// Dial reports an error only for a connection that has failed (its done channel is closed): an error for a healthy
+// connection - say because a waiting caller's own deadline has passed - would make that caller take the shared connection
+// out of the cache, and the next region of the server would dial a second one (C20)
+//@   ensures[C20,C03] r0 != nil ==> ghostat("closed", c.done) == 1
+// (done is a signal channel: the package never sends on it, it is only closed - by fail - so a receive that succeeds has seen it closed)
+//@   at return 5 assume-shared ghostat("closed", c.done) == 1
 // setting up the connection arms no read deadline (C18): nothing is outstanding on a connection that has just said
 // hello, and a read deadline left behind by Dial would tear the idle connection down when the dial context's deadline passes
 //@   ensures[C18] forall(k, ghostat("armed", k) == old(ghostat("armed", k)))
@@ -575,8 +612,8 @@ package region
 // the cellblocks of the request follow the region actions (C05): the sizing pass does not touch the list, and each
 // region's cellblocks are appended in the very iteration that creates its region action (the two passes enumerate the
 // map in unrelated orders, so appending anywhere else would detach the cells from their actions)
-//@   loop 2 invariant[C05] sameslice(cbs, atentry(2, cbs))
-//@   loop 3 invariant[C05] len(cbs) == atentry(3, len(cbs)) + sumvisited(r, len(actionsPerReg[r].cellblocks))
+//@   loop 2 invariant[C05,C12] sameslice(cbs, atentry(2, cbs))
+//@   loop 3 invariant[C05,C12] len(cbs) == atentry(3, len(cbs)) + sumvisited(r, len(actionsPerReg[r].cellblocks))
 // a call is serialised (its cells appended to its region's cellblocks, its size counted) exactly when it also gets an
 // action in the request (C05): ghost ser[k] counts the serialisations of slot k. Cells without an action would be read by
 // the server as the cells of the next mutation. And a region that appears in the request has at least one action.
